@@ -28,12 +28,17 @@ VARIABLES l,      \* index of the next trace line to consume
           nchk,   \* number of events whose result was actually compared
           nundef, \* number of events outside the modelled domain (no verdict)
           shas,   \* [format -> digest] of the output calls since the last state change
-          firsts  \* [input key -> <<ok, digest>>] of the first run of every input (C09)
-vars == <<l, docs, par, live, bad, nchk, nundef, shas, firsts>>
+          firsts, \* [input key -> <<ok, digest>>] of the first run of every input (C09)
+          needs   \* set of <<line, name, argument>>: codec values the environment must supply
+vars == <<l, docs, par, live, bad, nchk, nundef, shas, firsts, needs>>
 
 Ev == Trace[l]
 IsEvent(n) == l <= Len(Trace) /\ Trace[l].ev = n
-Advance == l' = l + 1 /\ (IF l <= Len(Trace) /\ Trace[l].ev = "Repeat" THEN TRUE ELSE UNCHANGED firsts)
+Advance == /\ l' = l + 1
+           /\ (IF l <= Len(Trace) /\ Trace[l].ev = "Repeat" THEN TRUE ELSE UNCHANGED firsts)
+           /\ (IF l <= Len(Trace) /\ Trace[l].ev \in {"Eval", "Output"} THEN TRUE ELSE UNCHANGED needs)
+(* an evaluation that stopped at a missing codec value: no verdict, the need is recorded *)
+NoteNeed(r) == needs' = IF ~r.ok /\ r.err = "need" THEN needs \cup {<<l, r.need.name, r.need.arg>>} ELSE needs
 Keep == UNCHANGED <<docs, par, live>>
 ShaOf(e) == IF "sha" \in DOMAIN e THEN e.sha ELSE ""
 
@@ -68,7 +73,7 @@ JudgeLaws(r, e, ds) ==
   ELSE ""
 
 JudgeEval(r, e) ==
-  IF ~r.ok /\ r.err = "undef" THEN "undef"
+  IF ~r.ok /\ r.err \in {"undef", "need"} THEN "undef"
   ELSE IF r.ok /\ ~e.ok THEN "spec evaluates, code failed"
   ELSE IF ~r.ok /\ e.ok THEN "spec fails (" \o r.err \o "), code evaluated"
   ELSE IF r.ok /\ r.v # e.outs THEN "outputs differ"
@@ -80,7 +85,7 @@ EnvOf(e) == IF "env" \in DOMAIN e THEN e.env ELSE <<>>
 CodecOf(e) == IF "codec" \in DOMAIN e THEN e.codec ELSE <<>>
 
 TInit == /\ l = 2 /\ docs = <<>> /\ par = <<>> /\ live = "ok" /\ bad = {} /\ nchk = 0 /\ nundef = 0
-         /\ shas = <<>> /\ firsts = <<>>
+         /\ shas = <<>> /\ firsts = <<>> /\ needs = {}
 
 (* a new Parser *)
 TReset ==
@@ -91,7 +96,7 @@ TReset ==
 (* events of a session that already failed or was lost are skipped *)
 TSkip ==
   /\ l <= Len(Trace) /\ Ev.ev \in {"MergeDocument", "Documents", "Output"}
-  /\ live # "ok" /\ Advance
+  /\ live # "ok" /\ Advance /\ needs' = needs
   /\ UNCHANGED <<docs, par, live, bad, nchk, nundef, shas>>
 
 TMergeDocument ==
@@ -124,7 +129,8 @@ TOutput ==
          j == IF j0 = "" THEN JudgeLaws(r, e, docs) ELSE j0
          f == IF "format" \in DOMAIN e THEN e.format ELSE ""
          stale == e.ok /\ ShaOf(e) # "" /\ f \in DOMAIN shas /\ shas[f] # ShaOf(e)
-     IN /\ Verdict(IF j = "" /\ stale THEN "two output calls on the same state returned different bytes" ELSE j)
+     IN /\ NoteNeed(r)
+        /\ Verdict(IF j = "" /\ stale THEN "two output calls on the same state returned different bytes" ELSE j)
         /\ shas' = IF e.ok /\ ShaOf(e) # "" /\ f \notin DOMAIN shas
                    THEN [x \in (DOMAIN shas) \cup {f} |-> IF x = f THEN ShaOf(e) ELSE shas[x]]
                    ELSE shas
@@ -134,7 +140,7 @@ TEval ==
   /\ IsEvent("Eval") /\ Advance /\ Keep /\ UNCHANGED shas
   /\ LET r == EvalAllC(Ev.docs, EnvOf(Ev), CodecOf(Ev))
          j == JudgeEval(r, Ev)
-     IN Verdict(IF j = "" THEN JudgeLaws(r, Ev, Ev.docs) ELSE j)
+     IN NoteNeed(r) /\ Verdict(IF j = "" THEN JudgeLaws(r, Ev, Ev.docs) ELSE j)
 
 (* one run of `bkl` over a materialised directory layout: layers resolved   *)
 (* from file names, $parent and symbolic links, merged and evaluated; with  *)
@@ -225,6 +231,37 @@ TTool ==
                [] Ev.tool = "bkld" -> JudgeBkld(Ev)
                [] Ev.tool = "bkli" -> JudgeBkli(Ev))
 
+(* a format encoder's text, decoded by the independent decoder of that      *)
+(* format, must be exactly the encoded value (C14, C05)                     *)
+TCodec ==
+  /\ IsEvent("Codec") /\ Advance /\ Keep /\ UNCHANGED shas
+  /\ Verdict(IF ~Ev.decoded THEN "the independent decoder rejects the encoded text"
+             ELSE IF Ev.docs # <<Ev.value>> THEN "the encoded text does not decode to the encoded value"
+             ELSE "")
+
+(* C05: an evaluated stream written in a format (library Output*, bkl -f,   *)
+(* -o <file>, virtual input extension) and read back by bkl itself and by   *)
+(* the independent parser of the format the selection rules demand          *)
+TEmit ==
+  /\ IsEvent("Emit") /\ Advance /\ Keep /\ UNCHANGED shas
+  /\ LET e == Ev
+         want == EvalAllC(e.docs, <<>>, <<>>)
+         f == IF e.via = "library" THEN (IF e.format \in Exts THEN Ok(e.format) ELSE Err("unknownformat"))
+              ELSE ChooseFormat(e.fflag, e.opath, e.inputs)
+         cls == IF f.ok THEN FormatClass(f.v) ELSE "none"
+         dec == IF cls = "json-pretty" THEN "json" ELSE cls
+         j == IF ~want.ok THEN "undef"
+              ELSE IF ~f.ok THEN (IF e.ok THEN "an invalid format selection was accepted" ELSE "")
+              ELSE IF ~e.ok THEN "writing the output failed"
+              ELSE IF ~e.bklok \/ e.bkl # want.v THEN "bkl does not read back the documents it wrote (" \o cls \o ")"
+              ELSE IF ~e.indep[dec].ok THEN "the independent " \o dec \o " parser rejects what bkl wrote"
+              ELSE IF e.indep[dec].docs # want.v THEN "the independent " \o dec \o " parser reads something else than what was written"
+              ELSE IF dec = "json" /\ e.multiline /\ (cls = "json") THEN "compact JSON was requested, indented JSON was written"
+              ELSE IF cls = "json-pretty" /\ ~e.multiline /\ e.hascontainer THEN "indented JSON was requested, compact JSON was written"
+              ELSE IF dec \in {"yaml", "toml"} /\ e.indep["json"].ok /\ e.hascontainer THEN "JSON was written where " \o dec \o " was selected"
+              ELSE ""
+     IN Verdict(j)
+
 (* one process: the termination protocol of every tool (C08) *)
 TProc ==
   /\ IsEvent("Proc") /\ Advance /\ Keep /\ UNCHANGED shas
@@ -251,11 +288,12 @@ TDone ==
   /\ l = Len(Trace) + 1
   /\ JsonSerialize("result.json",
         [l |-> l + 1, nchk |-> nchk, undef |-> nundef,
+         needs |-> LET q == SetToSeq(needs) IN [i \in DOMAIN q |-> [line |-> q[i][1], name |-> q[i][2], arg |-> q[i][3]]],
          bad |-> LET q == SetToSeq(bad) IN [i \in DOMAIN q |-> [line |-> q[i][1], why |-> q[i][2]]]])
   /\ l' = l + 1
-  /\ UNCHANGED <<docs, par, live, bad, nchk, nundef, shas, firsts>>
+  /\ UNCHANGED <<docs, par, live, bad, nchk, nundef, shas, firsts, needs>>
 
-TNext == TReset \/ TSkip \/ TMergeDocument \/ TDocuments \/ TOutput \/ TEval \/ TRun \/ TProc \/ TRepeat \/ TWrap \/ TTool \/ TDone
+TNext == TReset \/ TSkip \/ TMergeDocument \/ TDocuments \/ TOutput \/ TEval \/ TRun \/ TProc \/ TRepeat \/ TWrap \/ TTool \/ TCodec \/ TEmit \/ TDone
 TSpec == TInit /\ [][TNext]_vars
 
 (* every line is consumed by exactly one action *)
